@@ -177,6 +177,7 @@ pub struct GenFile {
     pub protein: bool,
     pub text: Vec<u8>,
     pub records: Vec<Rec>,
+    pub blank_sep: bool,
 }
 
 pub fn gen_file(rng: &mut Rng, format: Format, protein: bool, n_records: usize) -> GenFile {
@@ -187,7 +188,15 @@ pub fn gen_file(rng: &mut Rng, format: Format, protein: bool, n_records: usize) 
     if format == Format::Transfac && rng.chance(0.5) {
         text.push_str(&format!("VV  {}\nXX\n//\n", phrase(rng)));
     }
+    // a third of the JASPAR / TRANSFAC files separate their records by blank (or whitespace-only)
+    // lines, as the JASPAR bulk downloads do, and may end in some
+    let blank_sep = format != Format::Uniprobe && rng.chance(0.33);
     for r in 0..n_records {
+        if blank_sep && r > 0 && rng.chance(0.7) {
+            for _ in 0..rng.range(1, 2) {
+                text.push_str(*rng.pick(&["\n", "\n", " \n", "\t\n"]));
+            }
+        }
         let w = if rng.chance(0.03) { rng.range(99, 135) } else if rng.chance(0.1) { rng.range(30, 40) } else { rng.range(1, 16) };
         let mut id = word(rng, 1, 12);
         if format != Format::Uniprobe && rng.chance(0.04) {
@@ -402,7 +411,10 @@ pub fn gen_file(rng: &mut Rng, format: Format, protein: bool, n_records: usize) 
             }
         }
     }
-    GenFile { format, protein, text: text.into_bytes(), records }
+    if blank_sep && rng.chance(0.5) {
+        text.push_str(*rng.pick(&["\n", "\n\n", " \n"]));
+    }
+    GenFile { format, protein, text: text.into_bytes(), records, blank_sep }
 }
 
 // --- reading through the library -----------------------------------------------------------------
